@@ -360,7 +360,9 @@ func cmdCheck(args []string) int {
 		solverMs += o.Ms
 		ok := o.Status == "unsat"
 		if o.Kind == "vacuity" {
-			ok = o.Status == "sat" || o.Status == "unknown" || o.Status == "timeout"
+			// only a refutation of the entry assumptions is a finding; a solver that ran out of time
+			// (its own limit, the CPU limit or the wall-clock guard) decided nothing
+			ok = o.Status == "sat" || o.Status == "unknown" || o.Status == "timeout" || o.Status == "cancelled"
 		}
 		if ok {
 			discharged++
